@@ -384,6 +384,9 @@ def expected_warnings(model, n, r, ph):
 
 def _check_aggregates(model, table, enabled, out, stats, phase_arg):
     E = enabled
+    out.sig = ""
+    for s_ in model.sources():
+        out.sig = out.sig or row_sig(model.comps[s_])
     srcs = model.sources()
     multi = len(srcs) > 1
     tot_t = sum(model.sys_phases.values()) if model.sys_phases else 0.0
